@@ -20,6 +20,7 @@ type Obligation struct {
 	Kind   string
 	Goal   string // formula that must be valid given the prefix
 	Canary bool   // expected to FAIL (sat)
+	MustWitness bool // a canary whose refutation is REQUIRED by the property: not finding one is a violation
 	Cover  bool   // reachability cover: Goal negation must be SAT, i.e. goal "false under reach" must fail
 	Pos    string
 	Desc   string
